@@ -54,6 +54,25 @@ def opMergeSort : P String := do
       let datas := ts.map (fun t => ((if presorted then t.drop 1 else sortRows le bs (t.drop 1))).map (squareRow hdr.length .none))
       pure (showOut (.ok (hdr :: mergeSorted le datas)))
 
+/-- mergesortH <key> <reverse> <buffersize|-> <missing> <n> <table>…  (tables with different fields, as repaired in /repo
+    2f346d7): every table is first rearranged to the output header (`catRows`: union of the fields in order of first
+    appearance, `missing` where a table has no such field or a row is short), then sorted, then merged -/
+def mergesortH (idx : List Nat) (rev : Bool) (bs : Option Nat) (outhdr : Row) (missing : Val) (ts : List Table) : List Row :=
+  mergeSorted (rowLe idx rev) (ts.map (fun t => sortRows (rowLe idx rev) bs (catRows outhdr missing t)))
+
+def opMergeSortH : P String := do
+  let key ← pKey
+  let rev ← pBool
+  let bs ← pOptNat
+  let missing ← pVal
+  let ts ← pList pTable
+  let outhdr := catHeader (ts.map (fun t => t.headD []))
+  match (match key with
+         | some k => asindices outhdr k
+         | none => .ok (List.range outhdr.length)) with
+  | .error e => pure (showOut (.fail [outhdr] e))
+  | .ok idx => pure (showOut (.ok (outhdr :: mergesortH idx rev bs outhdr missing ts)))
+
 /-- issorted <key> <reverse> <strict> <table> -/
 def opIsSorted : P String := do
   let key ← pKey
@@ -215,6 +234,32 @@ def opAgg : P String := do
       | .error e => pure (showOut (.fail [outhdr] e))
       | .ok vidx => pure (showOut (simpleAggregate (k.map specCell) field kidx vidx fn bs rows))
   | _, _ => pure "ERR unsupported"
+
+/-- `groupcountdistinctvalues(table, key, value)` as implemented (petl d4bbfd2): cut to the key fields followed by the value
+    field, `distinct` (sort whole rows, keep the first row of every run of equal rows), then count the rows of each key -/
+def gcdvDistinct (kidx : List Nat) (vidx : Nat) (bs : Option Nat) (rows : List Row) : List Row :=
+  let all := List.range (kidx.length + 1)
+  distinctRows (getKey all) (sortRows (rowLe all false) bs (pickRows (kidx ++ [vidx]) .none rows))
+
+def groupCountDistinct (kidx : List Nat) (vidx : Nat) (bs : Option Nat) (rows : List Row) : List (Val × Nat) :=
+  (sortedGroups (List.range kidx.length) bs (gcdvDistinct kidx vidx bs rows)).map (fun g => (g.1, g.2.length))
+
+/-- gcdv <key> <valuefield> <bs|-> <table>: the data rows (key cells…, count) -/
+def opGcdv : P String := do
+  let key ← pKey
+  let value ← pKey
+  let bs ← pOptNat
+  let t ← pTable
+  match t, key, value with
+  | hdr :: rows, some k, some [v] =>
+    match asindices hdr k, asindices hdr [v] with
+    | .ok kidx, .ok [vidx] =>
+      let out := (groupCountDistinct kidx vidx bs rows).map (fun g => keyCells (List.range kidx.length) g.1 ++ [intVal g.2])
+      pure (showOut (.ok out))
+    | .error e, _ => pure (showOut (.fail [] e))
+    | _, .error e => pure (showOut (.fail [] e))
+    | _, _ => pure "ERR unsupported"
+  | _, _, _ => pure "ERR unsupported"
 
 /-- multiagg <key|KN> <n> (<outfield> <src|KN> <fn>)… <bs|-> <table> -/
 def opMultiAgg : P String := do
@@ -869,6 +914,7 @@ def dispatch (op : String) : Option (P String) :=
   | "cmp" => some opCmp
   | "sort" => some opSort
   | "mergesort" => some opMergeSort
+  | "mergesortH" => some opMergeSortH
   | "issorted" => some opIsSorted
   | "join" => some opJoin
   | "crossjoin" => some opCrossJoin
@@ -877,6 +923,7 @@ def dispatch (op : String) : Option (P String) :=
   | "setop" => some opSetOp
   | "agg" => some opAgg
   | "multiagg" => some opMultiAgg
+  | "gcdv" => some opGcdv
   | "gsel" => some opGroupSelect
   | "foldadd" => some opFoldAdd
   | "mergedup" => some opMergeDup
